@@ -20,6 +20,20 @@ def load_job(job_path: Path, discard_id=True):
         return None, None
 
 
+def alias_job_files(jobpath: Path, old_type: str, new_type: str):
+    """The files of a job are named after the last component of its task
+    identifier: when a deprecated task was renamed, make the existing files
+    visible under the new name"""
+    old_name = old_type.rsplit(".", 1)[-1]
+    new_name = new_type.rsplit(".", 1)[-1]
+    if old_name != new_name:
+        for suffix in ("done", "out", "err"):
+            source = jobpath / f"{old_name}.{suffix}"
+            alias = jobpath / f"{new_name}.{suffix}"
+            if source.exists() and not alias.exists() and not alias.is_symlink():
+                alias.symlink_to(source.name)
+
+
 def fix_deprecated(workpath: Path, fix: bool, cleanup: bool):
     # Absolute path: the symbolic links point to the job directories
     jobspath = (workpath / "jobs").resolve()
@@ -74,8 +88,16 @@ def fix_deprecated(workpath: Path, fix: bool, cleanup: bool):
                             newjobpath.resolve(),
                             oldjobpath.resolve(),
                         )
+                    else:
+                        # Already linked (e.g. by an interrupted run)
+                        alias_job_files(
+                            newjobpath, name, str(job.__xpmtype__.identifier)
+                        )
                 else:
                     logger.info("Fixing %s/%s", name, old_identifier)
+                    alias_job_files(
+                        oldjobpath, name, str(job.__xpmtype__.identifier)
+                    )
                     if cleanup:
                         # Rewrite params.json
                         params["objects"] = job.__xpm__.__get_objects__(
